@@ -310,6 +310,12 @@ pub(crate) fn is_valid_topic_filter(filter: &str) -> bool {
     compute_topic_filter_properties(filter).is_valid
 }
 
+// Connection-independent check: is this a well-formed shared subscription filter?
+pub(crate) fn is_shared_topic_filter(filter: &str) -> bool {
+    let properties = compute_topic_filter_properties(filter);
+    properties.is_valid && properties.is_shared
+}
+
 pub(crate) fn is_valid_topic_filter_internal(filter: &str, context: &OutboundValidationContext, no_local: Option<bool>) -> bool {
     let topic_filter_properties = compute_topic_filter_properties(filter);
 
